@@ -1,6 +1,7 @@
 """Shared by engines/c12.py and engines/c15.py: case generators for harness/opt_drv.cc /
-ocaml/optim_driver.ml and the comparer (bitwise, or with a stated tolerance on the cases whose
-clipping norm depends on the iteration order of std::unordered_set<Parameter*>)."""
+ocaml/optim_driver.ml and the comparer (bitwise; order_sensitive / orders_agree / order_deviation
+single out and measure the runs whose clipping norm was summed in different iteration orders of
+std::unordered_set<Parameter*>, which the driver's pinned addresses are there to prevent)."""
 import math
 import re
 import struct
@@ -275,35 +276,66 @@ def has_clip(case):
                for op in case.split(";"))
 
 
-def close(a, b, tol):
-    """same text, and every 8-hex-digit float within tol * max(1, |x|) (or identical bits)"""
-    if a == b:
-        return True
-    sa, sb = HEX.split(a), HEX.split(b)
-    if sa != sb:
-        return False
-    for x, y in zip(HEX.findall(a), HEX.findall(b)):
-        if x == y:
+# statistics that are sums of non-negative terms (m = a*m + (1-a)*g*g with 0 < a < 1, m += g*g):
+# no cancellation, a perturbation of g stays a RELATIVE perturbation of m whatever its magnitude
+NONNEG_STATS = {"AdaGrad.m", "RMSProp.m", "AdaDelta.m1", "AdaDelta.m2", "Adam.m2"}
+FIELD = re.compile(r"([A-Za-z][\w.]*)=([0-9a-f]{8}(?:,[0-9a-f]{8})*)")
+
+
+def order_deviation(a, b):
+    """Two dumps of the same run that may differ only by the summation order of the clipping
+    norm.  Returns None when anything that is not a computed float differs (text, epoch, the
+    settings S= and hyper-parameters H=, non-finite values), else (worst |x-y| / max(|x|,|y|) over
+    the non-negative accumulators, worst |x-y| / max(1,|x|,|y|) over the values and the signed
+    statistics v, MomentumSGD.m, Adam.m1: differences of O(1) quantities, where only the
+    absolute error is bounded)."""
+    if FIELD.sub("", a) != FIELD.sub("", b):
+        return None
+    fa, fb = FIELD.findall(a), FIELD.findall(b)
+    if [n for n, _ in fa] != [n for n, _ in fb]:
+        return None
+    rel = ab = 0.0
+    for (n, xs), (_, ys) in zip(fa, fb):
+        if xs == ys:
             continue
-        fx, fy = bf(x), bf(y)
-        if math.isnan(fx) and math.isnan(fy):
-            continue
-        if math.isinf(fx) or math.isinf(fy) or math.isnan(fx) or math.isnan(fy):
-            return False
-        if abs(fx - fy) > tol * max(1.0, abs(fx), abs(fy)):
-            return False
-    return True
+        xs, ys = xs.split(","), ys.split(",")
+        if n in ("S", "H") or len(xs) != len(ys):
+            return None
+        for x, y in zip(xs, ys):
+            if x == y:
+                continue
+            fx, fy = bf(x), bf(y)
+            if not (math.isfinite(fx) and math.isfinite(fy)):
+                return None
+            d = abs(fx - fy)
+            if n in NONNEG_STATS:
+                rel = max(rel, d / max(abs(fx), abs(fy)))
+            else:
+                ab = max(ab, d / max(1.0, abs(fx), abs(fy)))
+    return rel, ab
 
 
 def split_run(out):
-    """'run U <dump> R <dump>' -> (U, R)"""
-    m = re.match(r"run U (.*?) R (.*)$", out)
-    return (m.group(1), m.group(2)) if m else (None, None)
+    """'run U <dump> R <dump>[ UE <dump>]' -> (U, R, UE or None): U = k+n uninterrupted steps on
+    Naive, R = the interrupted and resumed run; for mode 2 R ran on devices::Eigen throughout and
+    UE is the uninterrupted run on devices::Eigen it has to be compared with"""
+    m = re.match(r"run U (.*?) R (.*?)(?: UE (.*))?$", out)
+    return (m.group(1), m.group(2), m.group(3)) if m else (None, None, None)
 
 
 # --------------------------------------------------------------------------- two-pass run
 ORD = re.compile(r" order=(\S+)")
-ORDS = re.compile(r"run ordU=(\S+)(?: ordR=(\S+))?(?: ordF=(\S+))? U ")
+ORDS = re.compile(r"run ordU=(\S+)(?: ordR=(\S+))?(?: ordF=(\S+))?(?: ordE=(\S+))? U ")
+ORD_TOK = re.compile(r"\bord[URFE]=(\S+)")
+
+
+def orders_agree(raw_op_out):
+    """the iteration orders the driver printed for the worlds of one `run` / `rung` (uninterrupted,
+    interrupted, resumed, and for mode 2 the uninterrupted world on Eigen) are all the same"""
+    head = raw_op_out.split(" U ", 1)[0]
+    o = ORD_TOK.findall(head)
+    return len(o) >= 3 and len(set(o)) == 1
+
 
 
 def annotate(case, impl_out):
@@ -336,17 +368,20 @@ def annotate(case, impl_out):
             m = ORDS.match(out)
             if m and m.group(2) and m.group(3):
                 op = op + " %s %s %s" % (m.group(1), m.group(2), m.group(3))
-            out = re.sub(r"^run (ord[URF]=\S+ )*", "run ", out)
+            out = re.sub(r"^run (ord[URFE]=\S+ )*", "run ", out)
         elif t[0] == "rung":
-            out = re.sub(r"^rung (ord[URF]=\S+ )*", "rung ", out)
+            out = re.sub(r"^rung (ord[URFE]=\S+ )*", "rung ", out)
         new_ops.append(op)
         new_outs.append(out)
     new_outs += outs[k:]
     return " ; ".join(new_ops), " ; ".join(new_outs)
 
 
-def two_pass(pv, cases, impl_bin, model_bin, timeout=900, impl_env=None):
+def two_pass(pv, cases, impl_bin, model_bin, timeout=900, impl_env=None, raw_out=None):
+    """raw_out: a list that receives the implementation's lines as printed (with the order tokens)"""
     rc1, o1 = pv.run_lines(impl_bin, cases, timeout=timeout, env=impl_env)
+    if raw_out is not None:
+        raw_out.extend(o1)
     mc, io = [], []
     for i, c in enumerate(cases):
         a, b = annotate(c, o1[i] if i < len(o1) else "")
